@@ -240,6 +240,37 @@ MANIFEST_TEXT["C15"] = dict(
     note="One sanitizer family per build (address+undefined); reports are fatal (-fno-sanitize-recover=all, abort_on_error=1) and the driver restarts the slice after the failing case.",
 )
 
+CHECKS["C20"] = dict(
+    level="exploration",
+    rule=("route-repeat: C03-style scenes (separated / touching / dense, both routing modes, penalties, buffers, nudging options, 1-6 connectors) routed twice in one process; before each run "
+          "the heap is churned with blocks of the sizes of the libraries' own objects (Router, ConnRef, VertInf, Variable, Block, ...) filled with a different byte pattern and freed, and "
+          "an unrelated scene is routed in between: displayRoute() and route() of every connector must be bit-identical. route-frame: the scene translated by multiples of 2^-10 up to "
+          "+-2000 (routes must translate: exactly for polyline, 1e-7 for nudged orthogonal routes) and mapped by one of the 7 non-trivial symmetries of the square (vertex order and "
+          "direction flags mapped too): every route's cost (length + segmentPenalty x bends; raw route for orthogonal) must be unchanged. vpsc: IncSolver/Solver problems (2-30 variables, "
+          "constraints kept jointly satisfiable by a witness placement, equalities included, integer and real data) solved again after heap churn (bit-identical), with desired positions translated (solution translates to 1e-7) and with variables "
+          "relabelled and constraints reordered (same positions to 1e-6). layout: ConstrainedFDLayout / ConstrainedMajorizationLayout / removeoverlaps twice on equal inputs, the second "
+          "time with the rectangles handed out in the opposite address order and a different heap pattern, and doHOLA twice on equal graphs: positions equal to 1e-9. "
+          "non-trivial = some route bends / the solver moved a variable / always for layouts"),
+    workloads=[
+        dict(harness="c20_repeat", mode="route-repeat", quick=16000, thorough=400000, watchdog=120, san_thorough=6000),
+        dict(harness="c20_repeat", mode="route-frame", quick=16000, thorough=400000, watchdog=120, san_thorough=6000),
+        dict(harness="c20_repeat", mode="vpsc", quick=40000, thorough=1500000, watchdog=60, san_thorough=20000),
+        dict(harness="c20_repeat", mode="layout", quick=2500, thorough=80000, watchdog=300, san_thorough=600),
+    ],
+    min_nontrivial=dict(quick=30000, thorough=600000),
+    max_inconclusive=0.05,
+    require_obs=["routes_compared", "routes_compared_under_translation", "routes_compared_under_symmetry", "solves_compared", "layouts_compared"],
+    assumptions=["heap churn uses malloc/free of the library objects' sizes so that glibc hands the patterned blocks to the next run's objects (an uninitialised member then differs between the runs)",
+                 "translation of nudged orthogonal routes is compared to 1e-7 (the nudging solver divides by weights, which does not commute exactly with translation)",
+                 "route-frame scenes use segmentPenalty only, so that a route's cost is determined by the route itself",
+                 "doHOLA throwing std::runtime_error yields no result: inconclusive"],
+)
+MANIFEST_TEXT["C20"] = dict(
+    technique="runtime differential monitor: the same API calls executed twice in one process around deliberate heap churn and address-order changes, and in translated / rotated / mirrored / relabelled frames, results compared bit-for-bit or to the stated tolerance",
+    text="Dependence on uninitialised memory, pointer values or absolute coordinates shows up as a difference between two executions of the real code on equal inputs; the monitor provokes such differences (patterned heap reuse, reversed allocation order, unrelated work in between, eight frames) and compares every route, solver position and layout position. Held on the executions observed; recorded order-dependence of the solvers and pointer-order dependence of two layouts are matched by signature with rate ceilings.",
+    note="Heap reuse behaviour is glibc-specific; the sanitizer re-run in the thorough tier uses ASan's allocator (quarantine) and therefore mostly exercises the frame comparisons.",
+)
+
 CHECKS["C03"] = dict(
     level="exploration",
     rule=("cases = scenes of interior-disjoint convex shapes with integer coordinates in three regimes (separated / touching cells sharing edges and corners / dense), "
